@@ -380,7 +380,10 @@ def work(lines):
   rng = random.Random(seed)
   recs = [common.decode_line(l) for l in lines]
   stats = {'programs': len(recs), 'functions': 0, 'skipped_lambda': 0,
-           'nontrivial': sum(1 for r in recs if len(r['b']) >= 2)}
+           'nontrivial': sum(1 for r in recs if len(r['b']) >= 2), 'ops': {}}
+  for r in recs:
+    for op in {i['op'] for i in r['prog']}:
+      stats['ops'][op] = stats['ops'].get(op, 0) + 1
   sample = None
   jobs = []   # (rec, variant, name)
   for n, rec in enumerate(recs):
@@ -436,13 +439,27 @@ BASE = dict(Ops={'lit', 'par', 'call', 'mk'}, Lits={1}, Params={1}, Fns={1, 2}, 
             MaxStack=2, MaxHeap=4, ForceRetAt=99, EmitOn=True)
 
 QUICK = [
-    dict(BASE),
-    dict(BASE, Ops={'lit', 'call', 'part', 'repart', 'tag', 'mk'}, Fns={2}, MkKinds={'tuple'}, TagMasks={1, 5}),
-    dict(BASE, Ops={'fn', 'lit', 'part', 'afp', 'call'}, Fns={1, 4}, MaxArgs=1),
+    dict(BASE, Fns={1}),
+    dict(BASE, Ops={'lit', 'call', 'part', 'repart', 'tag', 'mk'}, Fns={2}, MkKinds={'tuple'}, TagMasks={1, 5}, MaxArgs=1),
+    dict(BASE, Ops={'fn', 'part', 'afp', 'call'}, Fns={4}, MaxArgs=1),
     dict(BASE, Ops={'lit', 'par', 'ex', 'ac', 'call', 'mk'}, Params={2, 3}, Fns={3}, AcKinds={11, 12},
-         MkKinds={'dict'}, Vias={0, 1}),
+         MkKinds={'dict'}, Vias={0, 1}, MaxArgs=1),
     dict(BASE, Ops={'lit', 'call', 'ife', 'comp', 'ex', 'tag'}, Fns={4}, MaxArgs=1, NVars=1),
-    dict(BASE, Ops={'lit', 'par', 'call', 'part'}, Styles={'splat'}, Fns={3}),
+    dict(BASE, Ops={'lit', 'par', 'call', 'part'}, Styles={'splat'}, Fns={3}, MaxLen=4),
+    # sharing through local variables (needs six instructions at least)
+    dict(BASE, Ops={'call', 'mk', 'tag'}, Fns={2}, MaxArgs=2, MaxLen=7, NVars=1, MkKinds={'list'}),
+]
+THOROUGH = [
+    dict(BASE, MaxLen=6),
+    dict(BASE, Ops={'lit', 'call', 'part', 'repart', 'tag', 'mk'}, Fns={2}, MkKinds={'tuple', 'dict'}, TagMasks={1, 5, 6}, MaxLen=6,
+         MaxArgs=1),
+    dict(BASE, Ops={'fn', 'lit', 'part', 'afp', 'call', 'repart'}, Fns={1, 4}, MaxArgs=2, MaxLen=5),
+    dict(BASE, Ops={'lit', 'par', 'ex', 'ac', 'call', 'mk', 'tag'}, Params={2, 3}, Fns={3}, AcKinds={11, 12},
+         MkKinds={'dict', 'list'}, Vias={0, 1}, MaxLen=5),
+    dict(BASE, Ops={'lit', 'call', 'ife', 'comp', 'ex', 'tag', 'mk', 'ac'}, Fns={4}, MaxArgs=1, NVars=1, CompNs={0, 2}, MaxLen=6,
+         MaxHeap=8),
+    dict(BASE, Ops={'lit', 'par', 'call', 'part', 'ex'}, Styles={'plain', 'splat'}, Fns={3}, MaxLen=5),
+    dict(BASE, Ops={'lit', 'call', 'mk', 'part', 'tag'}, NVars=2, MaxStack=3, MaxLen=6, Fns={2}, MaxArgs=2),
 ]
 ALL_OPS = {'lit', 'par', 'fn', 'call', 'mk', 'part', 'repart', 'afp', 'ex', 'tag', 'ac', 'ife', 'comp'}
 SIM = dict(BASE, Ops=ALL_OPS, Lits={1, 2}, Params={1, 2, 3}, Fns={1, 2, 3, 4}, MaxArgs=3, Styles={'plain', 'splat'},
@@ -459,14 +476,93 @@ def run_config(v, n, consts, wd, totals, simulate=None, depth=None):
                      workdir=os.path.join(wd, f'mc{n}'), on_json=disp, simulate=simulate, depth=depth,
                      seed_=common.seed() + n if simulate else None)
   common.require_tlc_ok(r, f'MC_C11 config {n}')
+  before = totals.get('programs', 0)
   for stats, mism, sample in disp.results():
     if sample and len(v.samples if hasattr(v, 'samples') else []) < 3:
       v.sample(sample)
     for k, x in stats.items():
-      totals[k] = totals.get(k, 0) + x
+      if k == 'ops':
+        for op, cnt in x.items():
+          totals.setdefault('ops', {})[op] = totals.get('ops', {}).get(op, 0) + cnt
+      else:
+        totals[k] = totals.get(k, 0) + x
     for f, case in mism:
       v.mismatch(f, case)
+  totals.setdefault('configs', []).append(
+      {'config': n, 'ops': sorted(consts['Ops']), 'max_len': consts['MaxLen'], 'mode': 'simulate' if simulate else 'exhaustive',
+       'programs': totals.get('programs', 0) - before, 'states': r.distinct, 'tlc_wall_s': round(r.wall_s, 1)})
   return r
+
+
+def run_scenarios():
+  """Hand-written functions (harness/c11scen.py), judged real against real."""
+  from harness import c11scen  # pylint: disable=g-import-not-at-top
+  out = []
+  for name, fn, args, kwargs, exp_inv in c11scen.SCENARIOS:
+    base = {'variant': 'scenario', 'ops': name}
+    def bad(clause, msg, **kw):
+      out.append((dict(base, clause=clause, **kw), msg))
+    pool.CALL_LOG.clear()
+    try:
+      cfg = fn.as_buildable(*args, **kwargs)
+    except Exception as e:  # pylint: disable=broad-except
+      bad('as_buildable-raises', f'{type(e).__name__}: {str(e)[:300]}', err=type(e).__name__)
+      continue
+    invoked = [i.fn_id for i in pool.CALL_LOG]
+    if invoked != exp_inv:
+      bad('as_buildable-invokes-callables', f'invoked {invoked}, expected {exp_inv}')
+    vals = {}
+    und = fn.func
+    for label, thunk in (('undecorated', lambda: und(*args, **kwargs)), ('decorated', lambda: fn(*args, **kwargs)),
+                         ('built', lambda: fdl.build(cfg))):
+      try:
+        vals[label] = thunk()
+      except Exception as e:  # pylint: disable=broad-except
+        bad(label + '-raises', f'{type(e).__name__}: {str(e)[:300]}', err=type(e).__name__)
+    graphs = {}
+    for label, val in vals.items():
+      h, r, partials = proj(val)
+      try:
+        graphs[label] = (h, r, probe(val, partials))
+      except Exception as e:  # pylint: disable=broad-except
+        bad(label + '-partial-call-raises', f'{type(e).__name__}: {str(e)[:300]}', err=type(e).__name__)
+    ref = graphs.get('undecorated')
+    for label, g in graphs.items():
+      if ref is not None and g[:2] != ref[:2]:
+        bad(label + '-graph-differs', f'{json.dumps(g[0])} vs {json.dumps(ref[0])}')
+      elif ref is not None and g[2] != ref[2]:
+        bad(label + '-partials-behave-differently', f'{json.dumps(g[2])} vs {json.dumps(ref[2])}')
+  return out, len(c11scen.SCENARIOS)
+
+
+def negative_controls(wd):
+  """The model reaches tagged results and shared objects; the harness rejects corrupted predictions."""
+  out = {}
+  for inv, consts in (('NeverTaggedInResult', dict(QUICK[1], EmitOn=False, MaxLen=4)),
+                      ('NeverShared', dict(QUICK[6], EmitOn=False))):
+    r = common.run_tlc('MC_C11', common.cfg_text(consts, constraints=['Bounded'], invariants=[inv]),
+                       workdir=os.path.join(wd, 'neg-' + inv))
+    if r.violation != inv:
+      raise common.MachineryError(f'negative control {inv} was not refuted by TLC: {r.errors[:2]}')
+    out[inv] = 'refuted'
+  # binding: a corrupted prediction must be reported
+  I = lambda op, a=0, b=0, kw=(), sty='': {'op': op, 'a': a, 'b': b, 'kw': list(kw), 'sty': sty}
+  prog = [I('lit', 1), I('call', 4, 0, [2], 'plain'), I('st', 1), I('ld', 1), I('ld', 1), I('mk', 2, 0, (), 'list'), I('ret')]
+  cfg_obj = {'k': 'config', 'fn': 4, 'items': [{'key': 2, 'val': 1, 'tg': 0}]}
+  lst = {'k': 'list', 'fn': 0, 'items': [{'key': 0, 'val': -2, 'tg': 0}, {'key': 1, 'val': -2, 'tg': 0}]}
+  good = {'prog': prog, 'b': [lst, cfg_obj], 'broot': -1, 'd': [lst, dict(cfg_obj, k='inst')], 'droot': -1,
+          'inv': [], 'cb': True, 'cf': False}
+  src, _ = decompile(prog, 'global', 'negctl')
+  fn = getattr(load_module(src, wd), 'negctl')
+  if check_program(good, fn, 'global'):
+    raise common.MachineryError(f'binding control: the correct prediction was rejected: {check_program(good, fn, "global")[:1]}')
+  unshared = [{'k': 'list', 'fn': 0, 'items': [{'key': 0, 'val': -2, 'tg': 0}, {'key': 1, 'val': -3, 'tg': 0}]}, cfg_obj, cfg_obj]
+  for label, bad in (('sharing', dict(good, b=unshared)), ('callable', dict(good, d=[lst, dict(cfg_obj, k='inst', fn=1)])),
+                     ('invocation', dict(good, inv=[4])), ('no-buildable', dict(good, cb=False))):
+    if not check_program(bad, fn, 'global'):
+      raise common.MachineryError(f'binding control: corrupted prediction ({label}) was accepted')
+    out['corrupted-' + label] = 'rejected'
+  return out
 
 
 def main():
@@ -478,12 +574,16 @@ def main():
     CFG['seed'] = common.seed()
     sys.path.insert(0, wd)
     states = trans = 0
-    for n, consts in enumerate(QUICK):
+    controls = negative_controls(wd)
+    for n, consts in enumerate(QUICK if quick else THOROUGH):
       if ONLY and str(n) not in ONLY.split(','):
         continue
       r = run_config(v, n, consts, wd, totals)
       states += r.distinct
       trans += r.generated
+    scen, nscen = run_scenarios()
+    for f, msg in scen:
+      v.mismatch(f, {'message': msg})
     if not ONLY or 'sim' in ONLY.split(','):
       CFG['nvariants'] = 3
       r = run_config(v, 99, SIM, wd, totals, simulate=f'num={40 if quick else 4000}', depth=18)
@@ -493,7 +593,10 @@ def main():
       'evaluations': totals.get('functions', 0),
       'programs': totals.get('programs', 0), 'disagreements_checked': totals.get('functions', 0),
       'distinct_nontrivial': totals.get('nontrivial', 0),
-      'rule': 'one program per finished TLC behaviour; each decompiled into 2 of 6 definition forms',
+      'rule': 'one program per finished TLC behaviour; each decompiled into 2 (exhaustive) or 3 (random walks) of 6 '
+              'definition forms; non-trivial = the predicted as_buildable() graph has at least two objects',
+      'negative_controls': controls, 'scenarios': nscen,
+      'programs_containing_op': totals.get('ops', {}), 'configs': totals.get('configs', []),
       'exhaustive': True,
   })
   return v.finish()
